@@ -2,7 +2,7 @@
 from engine import *
 import sym
 
-CONFIGS_QUICK = ["F_all"]
+CONFIGS_QUICK = ["F_all", "F_noenc", "F_def"]  # every configuration whose cfg-gated code the property depends on
 CONFIGS_THOROUGH = ["F_all", "F_noenc", "F_def"]
 TECHNIQUE = 'static analysis: per-refill error discipline on MIR paths (kind compared with Interrupted, retry reaches the same call with no side effect, error returned built from that error), propagation rule in the event loop'
 EXPLANATION = (
